@@ -20,6 +20,9 @@ func distinct(xs []int) int {
 	return len(m)
 }
 
+// c08NoFault: scenarios in which nothing fails (dials succeed, the server answers all and closes nothing)
+var c08NoFault = map[string]bool{}
+
 func c08Scenario(name string, o tOpt, d int, allMustSucceed bool) vr.Scenario {
 	var sys *tsys
 	var stalePooled string
@@ -89,6 +92,12 @@ func c08Scenario(name string, o tOpt, d int, allMustSucceed bool) vr.Scenario {
 			justified := c.ctxDoneAtRet || (s.closeCalled && c.retAt >= s.closeAt) || lastFresh
 			if len(conns) == 0 {
 				justified = true // never got a connection (dial failed)
+				if c08NoFault[name] && !c.ctxDoneAtRet && !(s.closeCalled && c.retAt >= s.closeAt) {
+					// nothing fails in this scenario: every dial succeeds, the server answers everything
+					// and closes nothing; a query whose context is alive cannot fail without ever
+					// having been transmitted
+					return V("failed-without-attempt", fmt.Sprintf("call %d failed with %q although it was never transmitted, its context was alive, every dial succeeded and the server closed nothing", c.idx, c.err))
+				}
 			}
 			if nconn >= 2 && nconn <= 4 && !justified {
 				// several attempts, all failed: allowed by the statement ("a small bounded number of attempts all failed")
@@ -141,9 +150,14 @@ func TestVerifC08(t *testing.T) {
 		c08Scenario("reuse-c3+1-idle-pool-closed-in-any-order", tOpt{Kind: "reuse", Callers: 4, StageTwo: 1, Srv: srvOpt{AnswerAll: true}, CloseIdleOrder: true, FreezeStage1: true}, 1, true),
 		c08Scenario("reuse-c4+1-idle-pool-closed-in-any-order", tOpt{Kind: "reuse", Callers: 5, StageTwo: 1, Srv: srvOpt{AnswerAll: true}, CloseIdleOrder: true, FreezeStage1: true}, 1, true),
 		c08Scenario("reuse-seq3-kill", tOpt{Kind: "reuse", Callers: 1, Seq: 3, Srv: kill}, d, false),
+		// a slow dial (4 s); a query queued behind it gives up after 3 s; two more join the queue before the
+		// connection is up: limits of queue and connection are equal, nobody may fail but the impatient one
+		c08Scenario("pipeline-tcp-L2-q2-c4-queued-giveup-then-burst", tOpt{Kind: "pipeline-tcp", Callers: 4, MaxCq: 2, LazyQueue: 2, DialMenu: []int{5}, Srv: srvOpt{AnswerAll: true},
+			CtxMode: []int{0, 1, 0, 0}, StartAt: []time.Duration{0, 0, 3500 * time.Millisecond, 3500 * time.Millisecond}, FreezeUntil: 3499 * time.Millisecond}, d, false),
 		c08Scenario("reuse-c2-seq2-kill", tOpt{Kind: "reuse", Callers: 2, Seq: 2, Srv: kill}, d2, false),
 		c08Scenario("pipeline-tcp-c2-seq2-kill", tOpt{Kind: "pipeline-tcp", Callers: 2, Seq: 2, Srv: kill}, d2, false),
 		c08Scenario("pipeline-tcp-c3-kill-inflight", tOpt{Kind: "pipeline-tcp", Callers: 3, Srv: srvOpt{CloseBudget: 1, Reorder: true}}, d2, false),
 	}
+	c08NoFault["pipeline-tcp-L2-q2-c4-queued-giveup-then-burst"] = true
 	vr.RunScenarios("C08", scs)
 }
